@@ -155,6 +155,19 @@ def generate(ctx):
                         "interp": rng.choice(["spy", "previous", "next", "linear"])})
         yield {"N": n, "shape": list(shape), "dt": rng.choice([1.0, 0.5]), "ptr": rng.randrange(n),
                "dtype": "float32", "timedtype": "float32", "ops": ops}
+    # records whose storage is not floating point (spike histories are bool, counters integer): the elapsed time handed
+    # to the kernel is still a real number, and the scalar and tensor forms still agree
+    for _ in range(ncases // 5):
+        n = rng.choice([2, 3, 5])
+        shape = rng.choice([(3,), (2, 2), ()])
+        numel = int(np.prod(shape)) if shape else 1
+        qs = []
+        for _ in range(10):
+            k, tok = _pick(rng, n)
+            qs.append({"k": k, "tok": tok, "tol": rng.choice([0.0, 1e-6, 1e-3]), "off": rng.randint(0, n),
+                       "interp": rng.choice(["spy", "spy", "nearest", "previous", "next"])})
+        yield {"part": "intstore", "N": n, "shape": list(shape), "dt": rng.choice([1.0, 0.5, 0.1, 1.3]), "ptr": rng.randrange(n),
+               "dtype": rng.choice(["int64", "int32", "bool", "uint8"]), "queries": qs}
 
 
 # ------------------------------------------------------------------------------------------
@@ -229,7 +242,89 @@ def _elems(shape):
     return list(np.ndindex(*shape)) if shape else [()]
 
 
+class _ArgSpy:
+    """returns the older sample (valid in any storage dtype) and records what it was given"""
+
+    def __init__(self):
+        self.calls = []
+
+    def __call__(self, prev_data, next_data, sample_at, step_time, **kw):
+        self.calls.append((prev_data.clone(), next_data.clone(), sample_at.clone(), step_time))
+        return prev_data.clone()
+
+
+def _intstore(ctx, desc):
+    n, shape, dt = desc["N"], tuple(desc["shape"]), desc["dt"]
+    dtp = {"int64": torch.int64, "int32": torch.int32, "bool": torch.bool, "uint8": torch.uint8}[desc["dtype"]]
+    owner = inferno.Module()
+    RecordTensor.create(owner, "rec", dt, (n - 0.5) * dt, torch.zeros(shape, dtype=dtp), inclusive=False)
+    rt = owner.rec
+    model = Ring(n, shape)
+    numel = int(np.prod(shape)) if shape else 1
+    for i in range(n):
+        x = ((i * 7 + np.arange(numel)) % (2 if desc["dtype"] == "bool" else 200)).astype(np.float64).reshape(shape)
+        rt.push(torch.from_numpy(x).to(dtp))
+        model.push(x)
+    if desc["ptr"]:
+        rt.incr(desc["ptr"])
+        model.incr(desc["ptr"])
+    elems = _elems(shape)
+    for qi, q in enumerate(desc["queries"]):
+        rdesc = {**desc, "queries": desc["queries"][: qi + 1]}
+        c = _classify(q["k"], q["tok"], dt, q["tol"], n)
+        if not c["inrange"]:
+            continue
+        off, tol, name = q["off"], q["tol"], q["interp"]
+        ctx.case(f"intstore/{desc['dtype']}/{name}/{'ongrid' if c['ongrid'] else 'offgrid'}/N{n}/dt{dt}")
+        ctx.count("nonfloat_storage_selects")
+        outs = []
+        for mode in ("scalar", "tensor"):
+            spy = _ArgSpy()
+            fn = spy if name == "spy" else getattr(inff, "interp_" + name)
+            t = c["t"] if mode == "scalar" else torch.full(shape, c["t"], dtype=torch.float64)
+            try:
+                got = rt.select(t, fn, tolerance=tol, offset=off)
+            except Exception as e:  # noqa: BLE001
+                return ctx.violation(ctx.exc_signature(e, f"intstore.select.{mode}.{name}"), f"{type(e).__name__}: {str(e)[:140]}", rdesc)
+            if got.dtype != dtp or tuple(got.shape) != shape:
+                return ctx.violation(f"intstore.select.{mode}.dtype_or_shape", f"{got.dtype} {tuple(got.shape)}", rdesc)
+            outs.append(_np(got))
+            if name == "spy" and not c["ongrid"]:
+                if len(spy.calls) != 1:
+                    return ctx.violation(f"intstore.select.{mode}.spy_call_count", f"{len(spy.calls)} calls", rdesc)
+                prev, nxt, sat, st = spy.calls[0]
+                if not sat.dtype.is_floating_point:
+                    return ctx.violation(f"intstore.select.{mode}.elapsed_not_real", f"elapsed time handed over as {sat.dtype}", rdesc)
+                if not np.allclose(_np(sat), c["elapsed"], rtol=1e-5, atol=4e-6 * dt):
+                    return ctx.violation(f"intstore.select.{mode}.elapsed", f"elapsed {_np(sat).ravel()[:3]} != {c['elapsed']}", rdesc)
+                ctx.count("nonfloat_elapsed_checked")
+            # value: on-grid -> the stored sample; previous / next / spy -> older / newer / older; nearest by elapsed time
+            for e in elems:
+                if c["ongrid"]:
+                    exp = model.read(off + c["k"])[e]
+                else:
+                    older, newer = model.read(off + c["kc"])[e], model.read(off + c["kf"])[e]
+                    if name in ("spy", "previous"):
+                        exp = older
+                    elif name == "next":
+                        exp = newer
+                    else:
+                        frac = c["elapsed"] / dt
+                        if abs(frac - 0.5) < 1e-6:
+                            ctx.guard_skips += 1
+                            continue
+                        exp = newer if frac > 0.5 else older
+                ctx.guard_compared += 1
+                if outs[-1][e] != exp:
+                    return ctx.violation(f"intstore.select.{mode}.{name}.value", f"got {outs[-1][e]} expected {exp}", rdesc, {"class": c})
+        if name != "nearest" or c["ongrid"] or abs(c["elapsed"] / dt - 0.5) > 1e-6:
+            if not np.array_equal(outs[0], outs[1]):
+                return ctx.violation(f"intstore.select.scalar_ne_tensor.{name}", "scalar-time and tensor-time select disagree", rdesc)
+
+
 def run_case(ctx, desc):
+    if desc.get("part") == "intstore":
+        return _intstore(ctx, desc)
     owner, rt, model, dtp = _setup(desc)
     n, shape, dt = desc["N"], tuple(desc["shape"]), desc["dt"]
     tdt = torch.float64 if desc["timedtype"] == "float64" else torch.float32
